@@ -153,7 +153,13 @@ def plan(ctx):
     if quick:
         opds = [(("sample", "CookeTriplet"), 1, "fringe", 37, 22, 4, 0),
                 (("sample", "Edmund_49_847"), 0, "noll", 21, 11, 4, 1),
-                (("sample", "TelescopeDoublet"), 2, "standard", 15, 6, 4, 2)]
+                (("sample", "TelescopeDoublet"), 2, "standard", 15, 6, 4, 2),
+                # lenses whose apertures clip part of the sampled pupil (clipped rays stay samples of the wavefront)
+                (("sample", "HubbleTelescope"), 0, "noll", 15, 6, 5, 3),
+                (("directed", "vignetted_singlet"), 1, "fringe", 15, 6, 6, 6),
+                (("directed", "vignetted_singlet"), 1, "standard", 10, 5, 5, 7),
+                (("random", ctx.seed * 100 + 1), 1, "fringe", 15, 6, 6, 4),
+                (("random", ctx.seed * 100 + 3), 2, "standard", 10, 5, 5, 5)]
     else:
         from harness import lensgen as G
         names = [c.__name__ for c in G.sample_classes() if c.__name__ != "TelescopeObjective48Inch"]
@@ -453,7 +459,8 @@ def replay(ctx, rep):
         R.TABLES = tab
         ev = R.fit_task(tuple(r["task"]))
     elif k == "opd":
-        lens = ("random", int(r["lens"].split()[-1])) if r["lens"].startswith("random") else ("sample", r["lens"])
+        lens = ("random", int(r["lens"].split()[-1])) if r["lens"].startswith("random") else \
+            (("directed", r["lens"]) if r["lens"] == "vignetted_singlet" else ("sample", r["lens"]))
         from harness import lensgen as G
         ev = None
         for fi in range(3):
